@@ -30,7 +30,7 @@ RULE = (
     "negative / beyond the far edge / far beyond, read the array, read the frame, remove a subset of clusters, remove all, "
     "reset. After every operation the reported array is compared with an exact accumulator (binning = floor of the exact "
     "rational quotient position/size; outside clusters credited nowhere). Cases with an outside cluster run in a child "
-    "process. Non-trivial: array and cluster additions interleaved with a read in between, or a border/outside cluster; "
+    "process. A structured family removes clusters by id in 2..4 rounds with no addition in between (ids with gaps). Non-trivial: array and cluster additions interleaved with a read in between, or a border/outside cluster; "
     "distinct by canonical JSON."
 )
 ASSUMPTIONS = [
@@ -102,6 +102,30 @@ def resize_histories(draw):
     second = draw(st.permutations([arr(), clus()]))
     between = draw(st.sampled_from([[], [{"op": "reset"}], [{"op": "restore"}]]))
     base["ops"] = list(first) + [{"op": "read_array"}] + between + [{"op": "resize", "vsize": draw(size), "hsize": draw(size)}] + list(second) + [{"op": "read_array"}]
+    return base
+
+
+@st.composite
+def removal_histories(draw):
+    """Clusters are added once and then removed by id in several rounds (gaps in the ids; no addition in between), with reads after every round."""
+    base = draw(cases(allow_outside=False))
+
+    def clus(n_min, n_max):
+        cl = [{"number": float(draw(st.integers(1, 1000))), "v": dict(draw(_pos()), cls="interior"), "h": dict(draw(_pos()), cls="interior")}
+              for _ in range(draw(st.integers(n_min, n_max)))]
+        return {"op": "add_clusters", "clusters": cl, "coltype": "float64"}
+
+    ops = []
+    if draw(st.booleans()):
+        ops.append({"op": "add_array", "dtype": "float64", "kind": draw(st.sampled_from(["uniform", "sparse", "random"])),
+                    "level": draw(st.integers(1, 2000)), "seed": draw(st.integers(0, 10**6))})
+    ops.append(clus(3, 8))
+    for _ in range(draw(st.integers(2, 4))):
+        ops.append({"op": "remove", "idx": draw(st.lists(st.integers(0, 30), min_size=1, max_size=2))})
+        ops.extend(draw(st.sampled_from([[{"op": "read_array"}], [{"op": "read_frame"}], [{"op": "read_array"}, {"op": "read_frame"}], []])))
+    if draw(st.booleans()):
+        ops.extend([clus(1, 3), {"op": "remove", "idx": draw(st.lists(st.integers(0, 30), min_size=1, max_size=2))}, {"op": "read_array"}])
+    base["ops"] = ops
     return base
 
 
@@ -330,6 +354,7 @@ def plan(tier):
         Part(name="ops", kind="gen", strategy=lambda: cases(allow_outside=False), examples=25 if q else 300, label="inside_only"),
         Part(name="ops", kind="gen", strategy=cases, examples=10 if q else 150, label="with_outside_clusters"),
         Part(name="ops", kind="gen", strategy=resize_histories, examples=8 if q else 100, label="second_life_with_other_pixel_sizes"),
+        Part(name="ops", kind="gen", strategy=removal_histories, examples=8 if q else 100, label="several_removals_by_id"),
     ]
 
 
